@@ -170,7 +170,8 @@ func (s *seqState) saveLoad(w *simrt.World, sc *SeqCase) {
 	}
 	if savedWeight <= tmax && savedWeight <= srcMax {
 		m.Probes["saveload-fits"]++
-		for k, src := range live {
+		for _, k := range sortedKeys(live) {
+			src := live[k]
 			if _, ok := got[k]; !ok {
 				m.fail(props, "load.missing", k, "saved contents (weight %d) fit the target maximum %d but live key %d (value %d, weight %d, deadline %d) was not loaded (load clock %d)", savedWeight, tmax, k, src.V, src.W, src.Exp, tLoad)
 			}
